@@ -511,8 +511,9 @@ pub(crate) fn value_fingerprint(v: &Y) -> Result<String, String> {
     Ok(format!(
         "det={} tp={} tn={}",
         det,
-        v.get("true_positives").map(|x| canon(x, false)).unwrap_or_default(),
-        v.get("true_negatives").map(|x| canon(x, false)).unwrap_or_default()
+        // an explicit null where a list is expected is the empty list (what a loader that accepts it makes of it)
+        v.get("true_positives").map(|x| if x.is_null() { "[]".to_string() } else { canon(x, false) }).unwrap_or_default(),
+        v.get("true_negatives").map(|x| if x.is_null() { "[]".to_string() } else { canon(x, false) }).unwrap_or_default()
     ))
 }
 
@@ -588,6 +589,30 @@ pub fn run_life(case_in: &J, out: &mut Out, ic_build: bool) {
                     let ins = format!("{}\n    zzdup: q\n", line);
                     rendered.text.insert_str(after, &ins);
                 }
+            }
+        }
+    }
+    // `spell`: another spelling of the same YAML; the value path gets the value THIS text parses to
+    if let Some(sp) = case_in["spell"].as_str() {
+        let ins = |t: &mut String, line: &str| {
+            if let Some(p) = t.find("detection:\n") {
+                t.insert_str(p + "detection:\n".len(), line);
+            }
+        };
+        match sp {
+            "nullex" => rendered.text = rendered.text.replace("true_negatives: []", "true_negatives: ~"),
+            "numid" => ins(&mut rendered.text, "  1: {zz: q}\n"),
+            "fltid" => ins(&mut rendered.text, "  1.5: {zz: q}\n"),
+            "boolid" => ins(&mut rendered.text, "  true: {zz: q}\n"),
+            "nullid" => ins(&mut rendered.text, "  ~: {zz: q}\n"),
+            "docstart" => rendered.text = format!("---\n{}", rendered.text),
+            _ => rendered.text = format!("# a comment\n{}", rendered.text),
+        }
+        match serde_yaml::from_str::<Y>(&rendered.text) {
+            Ok(v) => rendered.value = v,
+            Err(e) => {
+                out.ev(json!({"ev":"skip","why":cps(&format!("spelling {} is not YAML: {}", sp, e))}));
+                return;
             }
         }
     }
